@@ -500,6 +500,9 @@ func rulePathMatchShape(c *Ctx) {
 		rb[dir] = true
 		for blk := range rb {
 			for _, ins := range blk.Instrs {
+				if call, ok := ins.(*ssa.Call); ok && calleeName(&call.Call) == "strings.HasPrefix" && len(call.Call.Args) == 2 && call.Call.Args[0] == ssa.Value(path) && call.Call.Args[1] == ssa.Value(pattern) {
+					prefRet = true // same predicate as len(path) >= len(pattern) && path[:len(pattern)] == pattern
+				}
 				if e, ok := ins.(*ssa.BinOp); ok && e.Op == token.EQL {
 					if s, ok := e.X.(*ssa.Slice); ok && s.X == ssa.Value(path) && e.Y == ssa.Value(pattern) {
 						lowOK := s.Low == nil
